@@ -51,8 +51,27 @@ def gen_grid(rng):
             while xs[-1] < hi - 1e-9:
                 xs.append(min(hi, xs[-1] + res * rng.uniform(0.3, 1.9)))
             return np.array(xs[:-1])
-        lat = np.deg2rad(irregular(-90.0, 90.0))
-        lon = np.deg2rad(irregular(-180.0, 180.0))
+
+        def mirrored(lo, hi):
+            # non-uniform but symmetric about the middle (e.g. wide polar bands): the first
+            # and the last cell have the same width
+            mid = 0.5 * (lo + hi)
+            w_out = res * rng.uniform(0.8, 1.9)          # the two outermost cells of each side
+            half = [mid]
+            while half[-1] < hi - 2 * w_out - res * 0.3:
+                half.append(min(hi - 2 * w_out, half[-1] + res * rng.uniform(0.3, 1.9)))
+            if half[-1] < hi - 2 * w_out - 1e-9:
+                half.append(hi - 2 * w_out)
+            half += [hi - w_out, hi]
+            right = half[1:]
+            left = [2 * mid - x for x in reversed(right)]
+            return np.array(left + [mid] + right[:-1])
+        if rng.random() < 0.35:
+            lat = np.deg2rad(mirrored(-90.0, 90.0))
+            lon = np.deg2rad(mirrored(-180.0, 180.0))
+        else:
+            lat = np.deg2rad(irregular(-90.0, 90.0))
+            lon = np.deg2rad(irregular(-180.0, 180.0))
     lon[0] = -PI
     alt = np.array(sorted({0.0} | {rng.uniform(0, 15000) for _ in range(rng.randint(2, 12))})) \
         if rng.random() < 0.6 else None
